@@ -15,8 +15,15 @@ def program(sc):
     body = [call, {'op': 'sleep', 'd': 1}]
     if sc['cons'] == 'until1':      # the call is made inside an until-block of the caller that expires at +1
         body = [{'op': 'open', 'kind': 'until_d', 'd': 1, 'catch': True}, call, {'op': 'leave'}, {'op': 'sleep', 'd': 1}]
+    if sc['cons'] == 'until0':      # ... inside an until-block whose flag is already set: its interrupt is in flight
+        body = [{'op': 'fset', 'f': 1, 'v': True}, {'op': 'open', 'kind': 'until_f', 'f': 1, 'catch': True}, call, {'op': 'leave'},
+                {'op': 'sleep', 'd': 1}]
+    if sc['cons'] == 'cancel0':     # the caller waits for a flag; it is woken and then cancelled before it gets its turn
+        body = [{'op': 'await_f', 'f': 1, 'v': True}, call, {'op': 'sleep', 'd': 1}]
     root = [{'op': 'open', 'kind': 'scope', 'catch': True},
             {'op': 'do', 's': -1, 'vol': sc['cons'] == 'close1', 'fin': 'none', 'prog': body}]
+    if sc['cons'] == 'cancel0':
+        root += [{'op': 'instant'}, {'op': 'fset', 'f': 1, 'v': True}, {'op': 'cancel', 'k': 2}]
     if sc['cons'] == 'cancel1':
         root += [{'op': 'sleep', 'd': 1}, {'op': 'cancel', 'k': 2}]
     if sc['cons'] == 'close1':      # the scope ends at +1: its volatile child (the caller) is closed forcefully
